@@ -1509,8 +1509,7 @@ def inline_helpers(tree: ast.Module, known_paths: set, functions) -> int:
                             new = prologue + _map_returns(body, mk)
                         elif body and isinstance(body[-1], ast.Return) and body[-1].value is not None and _tail_returns_only(body) and not any(isinstance(x, ast.Return) for s in body[:-1] for x in _walk_no_scope(s)):
                             # statements + one final `return E`: statements first, E in place of the call - the call must be the first thing evaluated
-                            early = [x for x in ast.walk(head) if isinstance(x, ast.Call) and x is not c and not any(y is c for y in ast.walk(x)) and (x.end_lineno, x.end_col_offset) <= (c.lineno, c.col_offset)]
-                            if not early and not isinstance(st, (ast.While,)):
+                            if _evaluated_first(head, c) and not _deferred(head, c) and not isinstance(st, (ast.While,)):
                                 new = prologue + body[:-1] + [_replace_expr(st, c, body[-1].value)]
                         if new is None and isinstance(st, ast.If) and not st.orelse and isinstance(st.test, ast.BoolOp) and isinstance(st.test.op, ast.And) \
                                 and st.test.values[-1] is c and _tail_returns_only(body) and _all_tails_return(body):
@@ -1743,6 +1742,7 @@ def _unmatched_stmt_ids(fn, ref_fps):
     return out
 
 
+SIMPLIFYING = {"copy-coalesce", "drop-tail-return", "break-flag-return", "try-flag-in"}      # remove a redundancy: accepted when nothing that matched is lost
 DUPLICATING = {"push-tail", "unhoist", "if-split", "and-else-out", "ifexp-callee-out", "expand-local"}
 
 
@@ -1829,7 +1829,7 @@ def direct_function(fn, ref_fps: List[str], known_names: set, stored_attrs, norm
             if kk in seen:
                 continue
             seen.add(kk)
-            if tm > best_m or (tm == best_m and tu < best_u and tu == 0):
+            if tm > best_m or (tm == best_m and tu < best_u and (tu == 0 or kind.rstrip("0123456789") in SIMPLIFYING)):
                 if debug:
                     print(f"canon_rw: {fn.name}: {kind}: matched {best_m} -> {tm}, different {best_u} -> {tu}")
                 best, best_m, best_u = t, tm, tu
@@ -2253,9 +2253,10 @@ def candidates2(fn, stored_attrs) -> List[Cand]:
                         continue
                     x_nodes = [n for n in own_walk(fn) if isinstance(n, ast.Name) and n.id == x]
                     y_nodes = [n for n in own_walk(fn) if isinstance(n, ast.Name) and n.id == y]
-                    pos = (st.lineno, st.col_offset)
-                    x_after = [n for n in x_nodes if (n.lineno, n.col_offset) > (st.end_lineno or st.lineno, st.end_col_offset or 0) and not any(n is m for m in ast.walk(st))]
-                    y_before = [n for n in y_nodes if (n.lineno, n.col_offset) < pos]
+                    order = _order(fn)
+                    pos = order[id(st)]
+                    x_after = [n for n in x_nodes if order[id(n)] > _last_rank(st, order)]
+                    y_before = [n for n in y_nodes if order[id(n)] < pos]
                     # in a loop body the renaming is only safe when x is bound again, earlier in the same block, at every iteration
                     earlier_store = any(isinstance(n, ast.Name) and n.id == x and isinstance(n.ctx, ast.Store) for z in stmts[:i] for n in ast.walk(z))
                     in_loop = bool(_loop_tail_blocks(fn)) and any(isinstance(o, (ast.For, ast.AsyncFor, ast.While)) for o in ast.walk(fn) if any(st is z for z in ast.walk(o))) and not earlier_store
@@ -2271,13 +2272,14 @@ def candidates2(fn, stored_attrs) -> List[Cand]:
             if isinstance(st, ast.Assign) and len(st.targets) == 1 and isinstance(st.targets[0], ast.Name) and isinstance(st.value, ast.Name) and st.value.id != st.targets[0].id:
                 y, x = st.targets[0].id, st.value.id
                 if x in local_names(fn) and not any(isinstance(sc, SCOPE + (ast.Lambda,)) and any(isinstance(n, ast.Name) and n.id in (x, y) for n in ast.walk(sc)) for sc in own_walk(fn)):
-                    pos = (st.lineno, st.col_offset)
+                    order = _order(fn)
+                    pos = order[id(st)]
                     x_nodes = [n for n in own_walk(fn) if isinstance(n, ast.Name) and n.id == x and n is not st.value]
                     y_nodes = [n for n in own_walk(fn) if isinstance(n, ast.Name) and n.id == y and n is not st.targets[0]]
-                    x_stores_after = [n for n in x_nodes if isinstance(n.ctx, ast.Store) and (n.lineno, n.col_offset) > pos]
-                    x_stores_before = [n for n in x_nodes if isinstance(n.ctx, ast.Store) and (n.lineno, n.col_offset) < pos]
-                    y_before = [n for n in y_nodes if (n.lineno, n.col_offset) < pos]
-                    x_reads_after = [n for n in x_nodes if isinstance(n.ctx, ast.Load) and (n.lineno, n.col_offset) > pos]
+                    x_stores_after = [n for n in x_nodes if isinstance(n.ctx, ast.Store) and order[id(n)] > pos]
+                    x_stores_before = [n for n in x_nodes if isinstance(n.ctx, ast.Store) and order[id(n)] < pos]
+                    y_before = [n for n in y_nodes if order[id(n)] < pos]
+                    x_reads_after = [n for n in x_nodes if isinstance(n.ctx, ast.Load) and order[id(n)] > pos]
                     y_stores_after = [n for n in y_nodes if isinstance(n.ctx, ast.Store)]
                     same_block_def = any(any(n is m for m in ast.walk(z)) for z in stmts[:i] for n in x_stores_before)
                     if not x_stores_after and len(x_stores_before) == 1 and same_block_def and not y_before \
@@ -2465,7 +2467,7 @@ def candidates2(fn, stored_attrs) -> List[Cand]:
                 if sum(1 for x in own_walk(fn) if isinstance(x, ast.Name) and x.id == nm and isinstance(x.ctx, ast.Store)) != 1:
                     continue
                 for r in reads(fn, nm):
-                    if (r.lineno, r.col_offset) <= (st.lineno, st.col_offset):
+                    if _order(fn).get(id(r), 0) <= _order(fn).get(id(st), 0):
                         continue
                     def f(fn=fn, r=r, st=st):
                         for o2, f2, s2 in blocks(fn):
@@ -2537,6 +2539,22 @@ def _is_if_owner(fn, la, lb) -> bool:
         if isinstance(n, ast.If) and {id(n.body), id(n.orelse)} == {la, lb}:
             return True
     return False
+
+
+def _order(fn) -> Dict[int, int]:
+    """id(node) -> rank in a depth-first, source-order walk of the function (positions are not reliable after inlining)."""
+    out: Dict[int, int] = {}
+
+    def rec(n):
+        out[id(n)] = len(out)
+        for c in ast.iter_child_nodes(n):
+            rec(c)
+    rec(fn)
+    return out
+
+
+def _last_rank(node, order) -> int:
+    return max(order.get(id(x), -1) for x in ast.walk(node))
 
 
 def _strip_ctx(node):
